@@ -671,4 +671,48 @@ def conductor (c : Ctx) (checkId : Bool) (cfg : ConductorCfg)
   | .value ms, .value bs => reconstruct c checkId cfg.rollupId (verifyMetas cfg ms) bs
   | _, _ => .panic
 
+/-! ## Transactions (`Transaction::try_from_raw`) -/
+
+structure TxRaw where
+  signature : Bytes
+  publicKey : Bytes
+  body : Option (Bytes × Bytes)        -- `Any { type_url, value }`
+  deriving Repr, DecidableEq
+
+/-- `Transaction`: signature, verification key, the signed body bytes. -/
+structure Tx where
+  signature : Bytes
+  key : Bytes
+  typeUrl : Bytes
+  bodyBytes : Bytes
+  deriving Repr, DecidableEq
+
+inductive TxErr where
+  | signature | verificationKey | unsetBody | verification | body
+  deriving Repr, DecidableEq
+
+/-- The cryptographic and structural oracles: which 32-byte strings are ed25519 keys, which
+    signatures verify, which `Any` bodies convert to a `TransactionBody` (type URL, actions,
+    group rules). -/
+structure TxOracles where
+  keyOk : Bytes → Bool
+  sigOk : (key msg sig : Bytes) → Bool
+  bodyOk : (typeUrl value : Bytes) → Bool
+  /-- the one type URL `TransactionBody::try_from_any` accepts -/
+  bodyUrl : Bytes
+  bodyOk_url : ∀ u v, bodyOk u v = true → u = bodyUrl
+
+/-- `Transaction::try_from_raw`. -/
+def txFromRaw (o : TxOracles) (r : TxRaw) : Except TxErr Tx :=
+  if r.signature.length ≠ 64 then .error .signature
+  else if r.publicKey.length ≠ 32 ∨ !o.keyOk r.publicKey then .error .verificationKey
+  else match r.body with
+    | none => .error .unsetBody
+    | some (url, value) =>
+      if !o.sigOk r.publicKey value r.signature then .error .verification
+      else if !o.bodyOk url value then .error .body
+      else .ok ⟨r.signature, r.publicKey, url, value⟩
+
+def Tx.toRaw (o : TxOracles) (t : Tx) : TxRaw := ⟨t.signature, t.key, some (o.bodyUrl, t.bodyBytes)⟩
+
 end Astria.Block
